@@ -95,8 +95,27 @@ func (c *Check) factorListFilledPerColumn(rule string) {
 						anyStore = st
 					}
 				}
-				if anyStore == nil {
+				// … or grown by one append per column
+				var anyApp *ssa.Call
+				for _, hs := range harvestSites(g) {
+					if app, isCall := hs.ins.(*ssa.Call); isCall && (ssa.Value(app) == list || phiReaches(list, app, map[ssa.Value]bool{})) {
+						if h := loopHeaderAround(app.Block()); h != nil {
+							if byLoop[h] == nil {
+								byLoop[h] = map[*ssa.BasicBlock]bool{}
+							}
+							byLoop[h][app.Block()] = true
+							anyApp = app
+						}
+					}
+				}
+				if anyStore == nil && anyApp == nil {
 					continue
+				}
+				var anyPos token.Pos
+				if anyStore != nil {
+					anyPos = anyStore.Pos()
+				} else {
+					anyPos = anyApp.Pos()
 				}
 				n++
 				key := "factor-per-column:" + fnName(g)
@@ -113,14 +132,14 @@ func (c *Check) factorListFilledPerColumn(rule string) {
 					}
 				}
 				if hdr == nil {
-					c.bad(rule, key, p.relFile(anyStore.Pos()), fnName(g)+" fills the factor list outside the loop over the profiles: the list handed to ScaleN is not computed per profile")
+					c.bad(rule, key, p.relFile(anyPos), fnName(g)+" fills the factor list outside the loop over the profiles: the list handed to ScaleN is not computed per profile")
 					continue
 				}
 				inLoop := byLoop[hdr]
 				if iterationSkipsAll(hdr, inLoop, func(ssa.Value) int { return 0 }) {
-					c.bad(rule, key, p.relFile(anyStore.Pos()), fnName(g)+" can finish a column without storing its factor in the list handed to ScaleN: the slot keeps the factor computed for an earlier profile (or zero), so a profile that needed no conversion is scaled by another profile's ratio")
+					c.bad(rule, key, p.relFile(anyPos), fnName(g)+" can finish a column without storing its factor in the list handed to ScaleN: the slot keeps the factor computed for an earlier profile (or zero), so a profile that needed no conversion is scaled by another profile's ratio")
 				} else {
-					c.ok(rule, key, p.relFile(anyStore.Pos()), "every column's factor slot is assigned in every iteration", "no path through an iteration of the column loop avoids the stores into the list handed to ScaleN")
+					c.ok(rule, key, p.relFile(anyPos), "every column's factor slot is assigned in every iteration", "no path through an iteration of the column loop avoids the stores into the list handed to ScaleN")
 				}
 			}
 		}
